@@ -692,7 +692,7 @@ fn z_or(y: usize, z: usize, rng: &mut Rng) -> usize {
 }
 
 pub fn run(cfg: &Cfg, rep: &mut Report) {
-    rep.rule = "Seeded histories on the real fungible-vault example over a Base asset token, one instance per decimals offset 0..=10 (every offset in every shard): deposit/mint/withdraw/redeem (self and via operator allowance), share transfers, direct asset donations, asset mints; amounts from {0,1,2,3,7,10^k+-1} and the neighbours of balances, max_withdraw, total assets and allowances, a quarter of the histories with amounts up to 2^126. Distinct case = (offset, entry point, vault state {empty,fresh,skewed by donation}, amount class, inexact division?, outcome).".into();
+    rep.rule = "Seeded histories on the real fungible-vault example over a Base asset token, one instance per decimals offset 0..=10 (every offset in every shard): deposit/mint/withdraw/redeem (self and via operator allowance), share transfers, direct asset donations, asset mints; amounts from {0,1,2,3,7,10^k+-1} and the neighbours of balances, max_withdraw, total assets and allowances, a quarter of the histories with amounts up to 2^126; a few histories under exact authorization (nobody takes out another participant's shares without that participant's or an approved operator's signature). Distinct case = (offset, entry point, vault state {empty,fresh,skewed by donation}, amount class, inexact division?, outcome).".into();
     let per_off = cfg.pick(4u64, 30);
     let steps = cfg.pick(150usize, 300);
     for off in 0..=10u32 {
@@ -703,6 +703,16 @@ pub fn run(cfg: &Cfg, rep: &mut Report) {
             }
         }
     }
+    // "no participant takes out more than they put in" also means: not somebody else's shares. A few
+    // histories run under exact authorization (the engine's C02 mode, its signatures re-labelled).
+    rep.rename_prefix = Some(("C02/".into(), "C05/authorization/".into()));
+    for k in 0..cfg.pick(2u64, 12) {
+        let h = 80_000 + k;
+        if cfg.runs(h) {
+            history(cfg, rep, h, steps, Mode::Auth, (k % 11) as u32);
+        }
+    }
+    rep.rename_prefix = None;
     rep.floor_on("deposits", 100, &["deposit:ok"]);
     rep.floor_on("redeems", 50, &["redeem:ok"]);
     rep.floor_on("round_trips", 5, &["round_trips"]);
